@@ -232,6 +232,11 @@ def run_worker(binary, build, cases_path, cases, workdir, stall_s):
         with open(events_path, "a") as f:
             f.write(json.dumps(synth_event(cases[idx], idx, build, outcome)) + "\n")
         start = idx + 1
+        # a hang costs the whole stall time: after a few of them the verdict is clear and the rest of the
+        # cases are skipped (they are reported as not run); aborts are cheap, allow many
+        if sum(1 for _, o in deaths if o == "timeout") >= 3:
+            log("worker (%s): 3 cases hung; remaining %d cases not run" % (build, len(cases) - start))
+            break
         if len(deaths) > 2000:
             raise ToolError("worker (%s) died more than 2000 times" % build)
     events = []
@@ -450,7 +455,7 @@ def main():
         log("%d cases" % len(cases))
 
         # ---- implementation
-        stall = 20 if tier == "quick" else 60
+        stall = 10 if tier == "quick" else 30
         t0 = time.time()
         dev, dev_out, dev_err = run_worker(bins["dev"], "dev", cases_path, cases, workdir, stall)
         rel, rel_out, rel_err = run_worker(bins["rel"], "rel", cases_path, cases, workdir, stall)
